@@ -64,6 +64,14 @@ def make_witness(o, model, run_label):
 
 def c17_witness(role):
     """fault-injection witnesses: the native replayer wraps the event in a target that rejects chosen operations"""
+    if "stdlib::unnest" in role:
+        return [({"source": ".r = unnest!(.a)\n", "event": {"a": [1, 2]}, "faults": {"get": [1]}}, {"outcome": "abort"}, {}),
+                ({"source": ".r, .e = unnest(.a)\n.after = true\n", "event": {"a": [1, 2]}, "faults": {"get": [1]}}, {"outcome": "ok", "event_has": ["after"]}, {})]
+    if "stdlib::exists" in role:
+        return [({"source": ".r = exists(.a)\n.after = true\n", "event": {"a": 5}, "faults": {"get": [1]}}, {"outcome": "ok", "event_eq": {"r": {"Boolean": False}}, "event_has": ["after"]}, {})]
+    if "stdlib::del" in role:
+        return [({"source": ".r = del(.a)\n.after = true\n", "event": {"a": 5}, "faults": {"remove": [0]}},
+                 {"outcome": "ok", "event_eq": {"r": "Null", "a": {"Integer": "5"}}, "event_has": ["after"]}, {})]
     if "Query[External]" in role:
         spec = {"source": ".out = .a\n.after = true\n", "event": {"a": 5}, "faults": {"get": [1]}}
         exp = {"outcome": "ok", "event_has": ["after", "out"], "event_eq": {"out": "Null", "a": {"Integer": "5"}}}
@@ -78,10 +86,11 @@ def c17_witness(role):
             spec = {"source": ".x = 1\n.after = true\n", "event": {"a": 5}}
             exp = {"outcome": "ok", "event_eq": {"x": {"Integer": "1"}}}
         return spec, exp, {}
-    if "Runtime:unreadable-root" in role:
-        return {"source": ".x = 1\n", "event": {"a": 5}, "faults": {"get": [0]}}, {"outcome": "error", "event_lacks": ["x"]}, {}
-    if "Runtime:program-runs" in role or "Runtime:root-read-first" in role:
-        return {"source": ".x = 1\n", "event": {"a": 5}}, {"outcome": "ok", "event_has": ["x"]}, {}
+    if "Runtime:" in role:
+        # a target whose root cannot be read ends the run with an error -- whatever the program does
+        return [({"source": ".x = 1\n", "event": {"a": 5}, "faults": {"get": [0]}}, {"outcome": "error", "event_lacks": ["x"]}, {}),
+                ({"source": "x = 5\nx * 2\n", "event": {"a": 5}, "faults": {"get": [0]}}, {"outcome": "error"}, {}),
+                ({"source": ".x = 1\n", "event": {"a": 5}}, {"outcome": "ok", "event_has": ["x"]}, {})]
     return None
 
 
@@ -110,7 +119,25 @@ def check(prop, ev, bounds=None, cvc5_cross=False):
             inconc.append(f"stdlib closure function drives its closure outside the four Runner methods: {badusers}")
     except Unencodable as e:
         inconc.append(f"unencodable (Runner): {e}")
-    import ctorlemmas, constlemmas, typeinfolemmas
+    if prop == "C17":
+        try:
+            import stdlemmas
+            found_sites, unknown_sites = audit_target_call_sites()
+            ev.cov["target_call_sites"] = sorted(found_sites)
+            if unknown_sites:
+                inconc.append(f"target operation call site without a C17 lemma: {sorted(unknown_sites)}")
+            so, sf = stdlib_target_obligations(stdlemmas.session())
+            obls = obls + so
+            fns = sorted(set(fns) | set(sf))
+        except Unencodable as e:
+            inconc.append(f"unencodable (stdlib target call sites): {e}")
+    import ctorlemmas, constlemmas, typeinfolemmas, stateflowlemmas
+    try:
+        sobls, sfns = stateflowlemmas.obligations(S)
+        obls = obls + sobls
+        fns = sorted(set(fns) | set(sfns))
+    except Unencodable as e:
+        inconc.append(f"unencodable (Op::type_info state-flow lemma): {e}")
     try:
         tobls, tfns = typeinfolemmas.obligations(S)
         obls = obls + tobls
@@ -162,7 +189,9 @@ def check(prop, ev, bounds=None, cvc5_cross=False):
         lab = child_label(S.types.struct_fields(node if node not in ("AssignVariant",) else "Variant", o.ex.hint_mod) or [])
         res = None
         try:
-            if role.endswith(":ok-type-includes-default-kind"):
+            if role.endswith(":operand-constants-are-read-in-the-state-of-evaluation"):
+                res = [(a, b, {}) for a, b in stateflowlemmas.battery()]
+            elif role.endswith(":ok-type-includes-default-kind"):
                 res = [(a, b, {}) for a, b in typeinfolemmas.battery()]
             elif role.endswith(":constant-matches-runtime"):
                 node = role.split(":")[1]
